@@ -6,7 +6,9 @@ package main
 // ops: rt (marshal, parse with all eight functions), respell, parse (hostile stream, outcomes only),
 // hostile (the same with allocation measured; C05 calls it as op wkt), seq (several encoder calls —
 // wkt.Marshal and wkt.MarshalString, the package's only encoder entry points — in a row or from two
-// goroutines, every result kept and judged only when all calls are done: runWKTSeq).
+// goroutines, every result kept and judged only when all calls are done: runWKTSeq); par (concurrent
+// parse phase), bseq (seq at text lengths around every power of two up to 1 MiB), brt (round trips at
+// member counts around 2^16 / 2^17 and deep nesting): c04_wb.go.
 //
 // fmt's %g and strconv.ParseFloat are parameters of the Lean model.  Every case line therefore
 // carries Go's own answers (computed here, on the input side of the line, so that a replay
@@ -257,6 +259,12 @@ func runC04(op string, in []string) string {
 		return runWKTHostile(in)
 	case "seq":
 		return runWKTSeq(in)
+	case "par":
+		return runWKTPar(in)
+	case "bseq":
+		return runWKTBigSeq(in)
+	case "brt":
+		return runWKTBigRt(in)
 	}
 	return "badop"
 }
@@ -1040,8 +1048,12 @@ func wktSeqDraw(r *rand.Rand) (string, []int, []orb.Geometry) {
 			gs_[i] = gs_[r.Intn(i)] // the same value again
 		case x == 2:
 			gs_[i] = orb.Point{wktCoord(r, style), wktCoord(r, style)}
-		case x == 3: // a longer text (beyond any small initial buffer)
-			ps := make(orb.LineString, 20+r.Intn(60))
+		case x == 3: // a longer text (beyond any small initial buffer; one in four: 4-20 kB)
+			np := 20 + r.Intn(60)
+			if r.Intn(4) == 0 {
+				np = 300 + r.Intn(900)
+			}
+			ps := make(orb.LineString, np)
 			for j := range ps {
 				ps[j] = orb.Point{wktCoord(r, style), wktCoord(r, style)}
 			}
@@ -1218,8 +1230,20 @@ func genC04(c *Ctx) {
 			c.Case("seq", wktSeqInput(mode, []int{0, 0, 0, 0, 1, 0}, []orb.Geometry{long, orb.Point{1, 2}, long, orb.Point{3, 4}, orb.Point{5, 6}, orb.Polygon{}}))
 		}
 	}
+	// white-box round (c04_wb.go): concurrent parse phase, seq at every buffer size class up to 1 MiB,
+	// round trips at member counts around 2^16 / 2^17 and at deep nesting
+	parCalls := 60000
+	if c.Tier == "thorough" {
+		parCalls = 200000
+	}
+	genWKTPar(c, parCalls)
+	genWKTBigSeq(c, 20)
+	genWKTBigRt(c)
 	n := c.Budget
 	for k := 0; k < n && !c.Exhausted(); k++ {
+		if k%64 == 5 {
+			c.Case("par", wktParDraw(r, parCalls))
+		}
 		if k%4 == 0 {
 			mode, entries, gs_ := wktSeqDraw(r)
 			c.Case("seq", wktSeqInput(mode, entries, gs_))
